@@ -695,7 +695,18 @@ def gen_c18(seed, shipped, tier="quick"):
     rng = random.Random(seed)
     layout = gen_layout(rng, collisions=True)
     ops = []
-    if rng.random() < 0.3:
+    if rng.random() < 0.2:
+        # the first thing the process does: several threads build their registries at once
+        jobs = []
+        for _ in range(rng.choice([2, 2, 3, 4])):
+            inc, exc = gen_filter(rng)
+            kind = rng.choice(["analyzers", "registry", "registry", "multidecoder"])
+            if kind == "multidecoder":
+                inc = exc = None
+            jobs.append([kind, rng.random() < 0.6 and kind == "registry", wrap_form(rng, inc), wrap_form(rng, exc)])
+        spec = {"policy": rng.choice(["rw", "rw", "rw", "rtc"]), "seed": rng.randrange(1 << 30), "quantum": rng.choice([1, 2, 3, 5, 10, 30])}
+        ops.append(["par_build", jobs, spec])
+    elif rng.random() < 0.3:
         # some decoder modules are already imported (for a helper, say) before the first registry is built
         for m in rng.sample(MODULES, rng.randint(1, 3)):
             ops.append(["import", m])
